@@ -24,7 +24,8 @@ for pid, commit, what in rows:
     try:
         for f in glob.glob(os.path.join(d, "found-*.json")):
             os.remove(f)
-        env = dict(os.environ, HGXVERIF_REPO=wt, PYTHONHASHSEED="0", VERIF_SEED="1")
+        env = dict(os.environ, HGXVERIF_REPO=wt, PYTHONHASHSEED="0", VERIF_SEED="1",
+                       HGXVERIF_EVIDENCE_DIR="/var/tmp/hgxverif_scratch_evidence")
         r = subprocess.run(["/venv/bin/python", "-m", "hgxverif.run", pid, "--tier", "quick"],
                            cwd=V, env=env, capture_output=True, text=True)
         found = sorted(glob.glob(os.path.join(d, "found-*.json")))
